@@ -39,6 +39,7 @@
 import PyFV.Gen.AvgGen
 import PyFV.Model.Avg
 import PyFV.Props.Examples
+import PyFV.Lemmas.GenEqTac
 import Mathlib.Tactic.Ring
 import Mathlib.Tactic.FieldSimp
 import Mathlib.Tactic.NormNum
@@ -156,22 +157,28 @@ theorem gradientTermFixedBC_family (k : Kind) :
 /-! ### averaging.py: `cell_size_array` (views of `cellsize._x|_y|_z` with broadcast dimensions) -/
 
 theorem cell_size_array_x_1D_eq (M : Mesh α) (p : ℕ) :
-    Gen.AvgGen.cell_size_array_x_1D M p = (M.axis .x).DX p := rfl
+    Gen.AvgGen.cell_size_array_x_1D M p = (M.axis .x).DX p := by
+  first | rfl | (simp only [Gen.AvgGen.cell_size_array_x_1D, constSrcRHS, linearSrcRow, transientRow, transientRHS, St7.diag, St7.mk.injEq, Mesh.axis] <;> (try and_intros) <;> geq_ring)
 
 theorem cell_size_array_x_2D_eq (M : Mesh α) (p : ℕ) :
-    Gen.AvgGen.cell_size_array_x_2D M p = (M.axis .x).DX p := rfl
+    Gen.AvgGen.cell_size_array_x_2D M p = (M.axis .x).DX p := by
+  first | rfl | (simp only [Gen.AvgGen.cell_size_array_x_2D, constSrcRHS, linearSrcRow, transientRow, transientRHS, St7.diag, St7.mk.injEq, Mesh.axis] <;> (try and_intros) <;> geq_ring)
 
 theorem cell_size_array_y_2D_eq (M : Mesh α) (p : ℕ) :
-    Gen.AvgGen.cell_size_array_y_2D M p = (M.axis .y).DX p := rfl
+    Gen.AvgGen.cell_size_array_y_2D M p = (M.axis .y).DX p := by
+  first | rfl | (simp only [Gen.AvgGen.cell_size_array_y_2D, constSrcRHS, linearSrcRow, transientRow, transientRHS, St7.diag, St7.mk.injEq, Mesh.axis] <;> (try and_intros) <;> geq_ring)
 
 theorem cell_size_array_x_3D_eq (M : Mesh α) (p : ℕ) :
-    Gen.AvgGen.cell_size_array_x_3D M p = (M.axis .x).DX p := rfl
+    Gen.AvgGen.cell_size_array_x_3D M p = (M.axis .x).DX p := by
+  first | rfl | (simp only [Gen.AvgGen.cell_size_array_x_3D, constSrcRHS, linearSrcRow, transientRow, transientRHS, St7.diag, St7.mk.injEq, Mesh.axis] <;> (try and_intros) <;> geq_ring)
 
 theorem cell_size_array_y_3D_eq (M : Mesh α) (p : ℕ) :
-    Gen.AvgGen.cell_size_array_y_3D M p = (M.axis .y).DX p := rfl
+    Gen.AvgGen.cell_size_array_y_3D M p = (M.axis .y).DX p := by
+  first | rfl | (simp only [Gen.AvgGen.cell_size_array_y_3D, constSrcRHS, linearSrcRow, transientRow, transientRHS, St7.diag, St7.mk.injEq, Mesh.axis] <;> (try and_intros) <;> geq_ring)
 
 theorem cell_size_array_z_3D_eq (M : Mesh α) (p : ℕ) :
-    Gen.AvgGen.cell_size_array_z_3D M p = (M.axis .z).DX p := rfl
+    Gen.AvgGen.cell_size_array_z_3D M p = (M.axis .z).DX p := by
+  first | rfl | (simp only [Gen.AvgGen.cell_size_array_z_3D, constSrcRHS, linearSrcRow, transientRow, transientRHS, St7.diag, St7.mk.injEq, Mesh.axis] <;> (try and_intros) <;> geq_ring)
 
 theorem cell_size_array_shapes_eq : Gen.AvgGen.cell_size_array_shapes =
     [("cell_size_array_x_1D", "(Nx+2)"),
@@ -184,64 +191,64 @@ theorem cell_size_array_shapes_eq : Gen.AvgGen.cell_size_array_shapes =
 theorem linearMean_x_1D_eq (M : Mesh α) (φ : CellFld α) (i j k : ℕ) :
     Gen.AvgGen.linearMean_x_1D M φ i j k = linMean M φ .x (i, 1, 1) := by
   simp only [Gen.AvgGen.linearMean_x_1D, linMean, Mesh.axis, Idx.get, Idx.next, Idx.prev, Idx.set]
-  first | done | ring1
+  first | done | geq_ring
 
 theorem linearMean_x_2D_eq (M : Mesh α) (φ : CellFld α) (i j k : ℕ) :
     Gen.AvgGen.linearMean_x_2D M φ i j k = linMean M φ .x (i, j+1, 1) := by
   simp only [Gen.AvgGen.linearMean_x_2D, linMean, Mesh.axis, Idx.get, Idx.next, Idx.prev, Idx.set]
-  first | done | ring1
+  first | done | geq_ring
 
 theorem linearMean_y_2D_eq (M : Mesh α) (φ : CellFld α) (i j k : ℕ) :
     Gen.AvgGen.linearMean_y_2D M φ i j k = linMean M φ .y (i+1, j, 1) := by
   simp only [Gen.AvgGen.linearMean_y_2D, linMean, Mesh.axis, Idx.get, Idx.next, Idx.prev, Idx.set]
-  first | done | ring1
+  first | done | geq_ring
 
 theorem linearMean_x_3D_eq (M : Mesh α) (φ : CellFld α) (i j k : ℕ) :
     Gen.AvgGen.linearMean_x_3D M φ i j k = linMean M φ .x (i, j+1, k+1) := by
   simp only [Gen.AvgGen.linearMean_x_3D, linMean, Mesh.axis, Idx.get, Idx.next, Idx.prev, Idx.set]
-  first | done | ring1
+  first | done | geq_ring
 
 theorem linearMean_y_3D_eq (M : Mesh α) (φ : CellFld α) (i j k : ℕ) :
     Gen.AvgGen.linearMean_y_3D M φ i j k = linMean M φ .y (i+1, j, k+1) := by
   simp only [Gen.AvgGen.linearMean_y_3D, linMean, Mesh.axis, Idx.get, Idx.next, Idx.prev, Idx.set]
-  first | done | ring1
+  first | done | geq_ring
 
 theorem linearMean_z_3D_eq (M : Mesh α) (φ : CellFld α) (i j k : ℕ) :
     Gen.AvgGen.linearMean_z_3D M φ i j k = linMean M φ .z (i+1, j+1, k) := by
   simp only [Gen.AvgGen.linearMean_z_3D, linMean, Mesh.axis, Idx.get, Idx.next, Idx.prev, Idx.set]
-  first | done | ring1
+  first | done | geq_ring
 
 /-! ### averaging.py: `arithmeticMean` = `arithMean` (no hypothesis) -/
 
 theorem arithmeticMean_x_1D_eq (M : Mesh α) (φ : CellFld α) (i j k : ℕ) :
     Gen.AvgGen.arithmeticMean_x_1D M φ i j k = arithMean M φ .x (i, 1, 1) := by
   simp only [Gen.AvgGen.arithmeticMean_x_1D, arithMean, amean2, Mesh.axis, Idx.get, Idx.next, Idx.prev, Idx.set]
-  first | done | ring1
+  first | done | geq_ring
 
 theorem arithmeticMean_x_2D_eq (M : Mesh α) (φ : CellFld α) (i j k : ℕ) :
     Gen.AvgGen.arithmeticMean_x_2D M φ i j k = arithMean M φ .x (i, j+1, 1) := by
   simp only [Gen.AvgGen.arithmeticMean_x_2D, arithMean, amean2, Mesh.axis, Idx.get, Idx.next, Idx.prev, Idx.set]
-  first | done | ring1
+  first | done | geq_ring
 
 theorem arithmeticMean_y_2D_eq (M : Mesh α) (φ : CellFld α) (i j k : ℕ) :
     Gen.AvgGen.arithmeticMean_y_2D M φ i j k = arithMean M φ .y (i+1, j, 1) := by
   simp only [Gen.AvgGen.arithmeticMean_y_2D, arithMean, amean2, Mesh.axis, Idx.get, Idx.next, Idx.prev, Idx.set]
-  first | done | ring1
+  first | done | geq_ring
 
 theorem arithmeticMean_x_3D_eq (M : Mesh α) (φ : CellFld α) (i j k : ℕ) :
     Gen.AvgGen.arithmeticMean_x_3D M φ i j k = arithMean M φ .x (i, j+1, k+1) := by
   simp only [Gen.AvgGen.arithmeticMean_x_3D, arithMean, amean2, Mesh.axis, Idx.get, Idx.next, Idx.prev, Idx.set]
-  first | done | ring1
+  first | done | geq_ring
 
 theorem arithmeticMean_y_3D_eq (M : Mesh α) (φ : CellFld α) (i j k : ℕ) :
     Gen.AvgGen.arithmeticMean_y_3D M φ i j k = arithMean M φ .y (i+1, j, k+1) := by
   simp only [Gen.AvgGen.arithmeticMean_y_3D, arithMean, amean2, Mesh.axis, Idx.get, Idx.next, Idx.prev, Idx.set]
-  first | done | ring1
+  first | done | geq_ring
 
 theorem arithmeticMean_z_3D_eq (M : Mesh α) (φ : CellFld α) (i j k : ℕ) :
     Gen.AvgGen.arithmeticMean_z_3D M φ i j k = arithMean M φ .z (i+1, j+1, k) := by
   simp only [Gen.AvgGen.arithmeticMean_z_3D, arithMean, amean2, Mesh.axis, Idx.get, Idx.next, Idx.prev, Idx.set]
-  first | done | ring1
+  first | done | geq_ring
 
 /-! ### averaging.py: `harmonicMean` = `harmMean`
     1-D: the scalar loop (vectorised by the translator; loop range = the whole array, checked); 2-D / 3-D: `_harmonic_face`
@@ -250,146 +257,104 @@ theorem arithmeticMean_z_3D_eq (M : Mesh α) (φ : CellFld α) (i j k : ℕ) :
 /-- the model has a value ⇒ it is the generated one -/
 theorem harmonicMean_x_1D_of_some (M : Mesh α) (hk : M.kind.dim = 1) (φ : CellFld α) (i j k : ℕ) (v : α)
     (hv : harmMean M φ .x (i, 1, 1) = some v) : Gen.AvgGen.harmonicMean_x_1D M φ i j k = v := by
-  by_cases hz : φ (i, 1, 1) = 0 ∨ φ (i+1, 1, 1) = 0
-  · simp [Gen.AvgGen.harmonicMean_x_1D, harmMean, hz, Mesh.axis, Idx.get, Idx.next, Idx.prev, Idx.set] at hv ⊢
-    exact hv
-  · by_cases hd : M.ax.DX (i+1) / φ (i+1, 1, 1) + M.ax.DX i / φ (i, 1, 1) = 0
-    · simp [harmMean, sdiv, hk, hz, hd, Mesh.axis, Idx.get, Idx.next, Idx.prev, Idx.set] at hv
-    · simp [Gen.AvgGen.harmonicMean_x_1D, harmMean, sdiv, hk, hz, hd, Mesh.axis, Idx.get, Idx.next, Idx.prev, Idx.set] at hv ⊢
-      exact hv
+  simp only [Gen.AvgGen.harmonicMean_x_1D, harmMean, sdiv, hk, Mesh.axis, Idx.get, Idx.next, Idx.prev, Idx.set] at hv ⊢
+  split_ifs at hv ⊢ <;> first
+    | (simp_all <;> done)
+    | (simp only [*, ↓reduceIte, if_false, if_true, Option.some.injEq] at hv <;> subst hv <;> geq_ring)
 
 /-- a zero neighbour, or a non-vanishing divisor ⇒ the model's value is the generated one -/
 theorem harmonicMean_x_1D_eq (M : Mesh α) (hk : M.kind.dim = 1) (φ : CellFld α) (i j k : ℕ)
     (h : φ (i, 1, 1) = 0 ∨ φ (i+1, 1, 1) = 0 ∨ M.ax.DX (i+1) / φ (i+1, 1, 1) + M.ax.DX i / φ (i, 1, 1) ≠ 0) :
     harmMean M φ .x (i, 1, 1) = some (Gen.AvgGen.harmonicMean_x_1D M φ i j k) := by
-  by_cases hz : φ (i, 1, 1) = 0 ∨ φ (i+1, 1, 1) = 0
-  · simp [Gen.AvgGen.harmonicMean_x_1D, harmMean, hz, Mesh.axis, Idx.get, Idx.next, Idx.prev, Idx.set]
-  · have hd : M.ax.DX (i+1) / φ (i+1, 1, 1) + M.ax.DX i / φ (i, 1, 1) ≠ 0 := by
-      rcases h with h | h | h
-      · exact absurd (Or.inl h) hz
-      · exact absurd (Or.inr h) hz
-      · exact h
-    simp [Gen.AvgGen.harmonicMean_x_1D, harmMean, sdiv, hk, hz, hd, Mesh.axis, Idx.get, Idx.next, Idx.prev, Idx.set]
+  simp only [Gen.AvgGen.harmonicMean_x_1D, harmMean, sdiv, hk, Mesh.axis, Idx.get, Idx.next, Idx.prev, Idx.set]
+  split_ifs <;> first
+    | (simp_all <;> done)
+    | (simp_all <;> geq_ring)
 
 /-- the model has a value ⇒ it is the generated one -/
 theorem harmonicMean_x_2D_of_some (M : Mesh α) (hk : M.kind.dim ≠ 1) (φ : CellFld α) (i j k : ℕ) (v : α)
     (hv : harmMean M φ .x (i, j+1, 1) = some v) : Gen.AvgGen.harmonicMean_x_2D M φ i j k = v := by
-  by_cases hz : φ (i, j+1, 1) = 0 ∨ φ (i+1, j+1, 1) = 0
-  · simp [Gen.AvgGen.harmonicMean_x_2D, harmMean, hz, Mesh.axis, Idx.get, Idx.next, Idx.prev, Idx.set] at hv ⊢
-    exact hv
-  · by_cases hd : M.ax.DX (i+1) * φ (i, j+1, 1) + M.ax.DX i * φ (i+1, j+1, 1) = 0
-    · simp [harmMean, sdiv, hk, hz, hd, Mesh.axis, Idx.get, Idx.next, Idx.prev, Idx.set] at hv
-    · simp [Gen.AvgGen.harmonicMean_x_2D, harmMean, sdiv, hk, hz, hd, Mesh.axis, Idx.get, Idx.next, Idx.prev, Idx.set] at hv ⊢
-      exact hv
+  simp only [Gen.AvgGen.harmonicMean_x_2D, harmMean, sdiv, hk, Mesh.axis, Idx.get, Idx.next, Idx.prev, Idx.set] at hv ⊢
+  split_ifs at hv ⊢ <;> first
+    | (simp_all <;> done)
+    | (simp only [*, ↓reduceIte, if_false, if_true, Option.some.injEq] at hv <;> subst hv <;> geq_ring)
 
 /-- a zero neighbour, or a non-vanishing divisor ⇒ the model's value is the generated one -/
 theorem harmonicMean_x_2D_eq (M : Mesh α) (hk : M.kind.dim ≠ 1) (φ : CellFld α) (i j k : ℕ)
     (h : φ (i, j+1, 1) = 0 ∨ φ (i+1, j+1, 1) = 0 ∨ M.ax.DX (i+1) * φ (i, j+1, 1) + M.ax.DX i * φ (i+1, j+1, 1) ≠ 0) :
     harmMean M φ .x (i, j+1, 1) = some (Gen.AvgGen.harmonicMean_x_2D M φ i j k) := by
-  by_cases hz : φ (i, j+1, 1) = 0 ∨ φ (i+1, j+1, 1) = 0
-  · simp [Gen.AvgGen.harmonicMean_x_2D, harmMean, hz, Mesh.axis, Idx.get, Idx.next, Idx.prev, Idx.set]
-  · have hd : M.ax.DX (i+1) * φ (i, j+1, 1) + M.ax.DX i * φ (i+1, j+1, 1) ≠ 0 := by
-      rcases h with h | h | h
-      · exact absurd (Or.inl h) hz
-      · exact absurd (Or.inr h) hz
-      · exact h
-    simp [Gen.AvgGen.harmonicMean_x_2D, harmMean, sdiv, hk, hz, hd, Mesh.axis, Idx.get, Idx.next, Idx.prev, Idx.set]
+  simp only [Gen.AvgGen.harmonicMean_x_2D, harmMean, sdiv, hk, Mesh.axis, Idx.get, Idx.next, Idx.prev, Idx.set]
+  split_ifs <;> first
+    | (simp_all <;> done)
+    | (simp_all <;> geq_ring)
 
 /-- the model has a value ⇒ it is the generated one -/
 theorem harmonicMean_y_2D_of_some (M : Mesh α) (hk : M.kind.dim ≠ 1) (φ : CellFld α) (i j k : ℕ) (v : α)
     (hv : harmMean M φ .y (i+1, j, 1) = some v) : Gen.AvgGen.harmonicMean_y_2D M φ i j k = v := by
-  by_cases hz : φ (i+1, j, 1) = 0 ∨ φ (i+1, j+1, 1) = 0
-  · simp [Gen.AvgGen.harmonicMean_y_2D, harmMean, hz, Mesh.axis, Idx.get, Idx.next, Idx.prev, Idx.set] at hv ⊢
-    exact hv
-  · by_cases hd : M.ay.DX (j+1) * φ (i+1, j, 1) + M.ay.DX j * φ (i+1, j+1, 1) = 0
-    · simp [harmMean, sdiv, hk, hz, hd, Mesh.axis, Idx.get, Idx.next, Idx.prev, Idx.set] at hv
-    · simp [Gen.AvgGen.harmonicMean_y_2D, harmMean, sdiv, hk, hz, hd, Mesh.axis, Idx.get, Idx.next, Idx.prev, Idx.set] at hv ⊢
-      exact hv
+  simp only [Gen.AvgGen.harmonicMean_y_2D, harmMean, sdiv, hk, Mesh.axis, Idx.get, Idx.next, Idx.prev, Idx.set] at hv ⊢
+  split_ifs at hv ⊢ <;> first
+    | (simp_all <;> done)
+    | (simp only [*, ↓reduceIte, if_false, if_true, Option.some.injEq] at hv <;> subst hv <;> geq_ring)
 
 /-- a zero neighbour, or a non-vanishing divisor ⇒ the model's value is the generated one -/
 theorem harmonicMean_y_2D_eq (M : Mesh α) (hk : M.kind.dim ≠ 1) (φ : CellFld α) (i j k : ℕ)
     (h : φ (i+1, j, 1) = 0 ∨ φ (i+1, j+1, 1) = 0 ∨ M.ay.DX (j+1) * φ (i+1, j, 1) + M.ay.DX j * φ (i+1, j+1, 1) ≠ 0) :
     harmMean M φ .y (i+1, j, 1) = some (Gen.AvgGen.harmonicMean_y_2D M φ i j k) := by
-  by_cases hz : φ (i+1, j, 1) = 0 ∨ φ (i+1, j+1, 1) = 0
-  · simp [Gen.AvgGen.harmonicMean_y_2D, harmMean, hz, Mesh.axis, Idx.get, Idx.next, Idx.prev, Idx.set]
-  · have hd : M.ay.DX (j+1) * φ (i+1, j, 1) + M.ay.DX j * φ (i+1, j+1, 1) ≠ 0 := by
-      rcases h with h | h | h
-      · exact absurd (Or.inl h) hz
-      · exact absurd (Or.inr h) hz
-      · exact h
-    simp [Gen.AvgGen.harmonicMean_y_2D, harmMean, sdiv, hk, hz, hd, Mesh.axis, Idx.get, Idx.next, Idx.prev, Idx.set]
+  simp only [Gen.AvgGen.harmonicMean_y_2D, harmMean, sdiv, hk, Mesh.axis, Idx.get, Idx.next, Idx.prev, Idx.set]
+  split_ifs <;> first
+    | (simp_all <;> done)
+    | (simp_all <;> geq_ring)
 
 /-- the model has a value ⇒ it is the generated one -/
 theorem harmonicMean_x_3D_of_some (M : Mesh α) (hk : M.kind.dim ≠ 1) (φ : CellFld α) (i j k : ℕ) (v : α)
     (hv : harmMean M φ .x (i, j+1, k+1) = some v) : Gen.AvgGen.harmonicMean_x_3D M φ i j k = v := by
-  by_cases hz : φ (i, j+1, k+1) = 0 ∨ φ (i+1, j+1, k+1) = 0
-  · simp [Gen.AvgGen.harmonicMean_x_3D, harmMean, hz, Mesh.axis, Idx.get, Idx.next, Idx.prev, Idx.set] at hv ⊢
-    exact hv
-  · by_cases hd : M.ax.DX (i+1) * φ (i, j+1, k+1) + M.ax.DX i * φ (i+1, j+1, k+1) = 0
-    · simp [harmMean, sdiv, hk, hz, hd, Mesh.axis, Idx.get, Idx.next, Idx.prev, Idx.set] at hv
-    · simp [Gen.AvgGen.harmonicMean_x_3D, harmMean, sdiv, hk, hz, hd, Mesh.axis, Idx.get, Idx.next, Idx.prev, Idx.set] at hv ⊢
-      exact hv
+  simp only [Gen.AvgGen.harmonicMean_x_3D, harmMean, sdiv, hk, Mesh.axis, Idx.get, Idx.next, Idx.prev, Idx.set] at hv ⊢
+  split_ifs at hv ⊢ <;> first
+    | (simp_all <;> done)
+    | (simp only [*, ↓reduceIte, if_false, if_true, Option.some.injEq] at hv <;> subst hv <;> geq_ring)
 
 /-- a zero neighbour, or a non-vanishing divisor ⇒ the model's value is the generated one -/
 theorem harmonicMean_x_3D_eq (M : Mesh α) (hk : M.kind.dim ≠ 1) (φ : CellFld α) (i j k : ℕ)
     (h : φ (i, j+1, k+1) = 0 ∨ φ (i+1, j+1, k+1) = 0 ∨ M.ax.DX (i+1) * φ (i, j+1, k+1) + M.ax.DX i * φ (i+1, j+1, k+1) ≠ 0) :
     harmMean M φ .x (i, j+1, k+1) = some (Gen.AvgGen.harmonicMean_x_3D M φ i j k) := by
-  by_cases hz : φ (i, j+1, k+1) = 0 ∨ φ (i+1, j+1, k+1) = 0
-  · simp [Gen.AvgGen.harmonicMean_x_3D, harmMean, hz, Mesh.axis, Idx.get, Idx.next, Idx.prev, Idx.set]
-  · have hd : M.ax.DX (i+1) * φ (i, j+1, k+1) + M.ax.DX i * φ (i+1, j+1, k+1) ≠ 0 := by
-      rcases h with h | h | h
-      · exact absurd (Or.inl h) hz
-      · exact absurd (Or.inr h) hz
-      · exact h
-    simp [Gen.AvgGen.harmonicMean_x_3D, harmMean, sdiv, hk, hz, hd, Mesh.axis, Idx.get, Idx.next, Idx.prev, Idx.set]
+  simp only [Gen.AvgGen.harmonicMean_x_3D, harmMean, sdiv, hk, Mesh.axis, Idx.get, Idx.next, Idx.prev, Idx.set]
+  split_ifs <;> first
+    | (simp_all <;> done)
+    | (simp_all <;> geq_ring)
 
 /-- the model has a value ⇒ it is the generated one -/
 theorem harmonicMean_y_3D_of_some (M : Mesh α) (hk : M.kind.dim ≠ 1) (φ : CellFld α) (i j k : ℕ) (v : α)
     (hv : harmMean M φ .y (i+1, j, k+1) = some v) : Gen.AvgGen.harmonicMean_y_3D M φ i j k = v := by
-  by_cases hz : φ (i+1, j, k+1) = 0 ∨ φ (i+1, j+1, k+1) = 0
-  · simp [Gen.AvgGen.harmonicMean_y_3D, harmMean, hz, Mesh.axis, Idx.get, Idx.next, Idx.prev, Idx.set] at hv ⊢
-    exact hv
-  · by_cases hd : M.ay.DX (j+1) * φ (i+1, j, k+1) + M.ay.DX j * φ (i+1, j+1, k+1) = 0
-    · simp [harmMean, sdiv, hk, hz, hd, Mesh.axis, Idx.get, Idx.next, Idx.prev, Idx.set] at hv
-    · simp [Gen.AvgGen.harmonicMean_y_3D, harmMean, sdiv, hk, hz, hd, Mesh.axis, Idx.get, Idx.next, Idx.prev, Idx.set] at hv ⊢
-      exact hv
+  simp only [Gen.AvgGen.harmonicMean_y_3D, harmMean, sdiv, hk, Mesh.axis, Idx.get, Idx.next, Idx.prev, Idx.set] at hv ⊢
+  split_ifs at hv ⊢ <;> first
+    | (simp_all <;> done)
+    | (simp only [*, ↓reduceIte, if_false, if_true, Option.some.injEq] at hv <;> subst hv <;> geq_ring)
 
 /-- a zero neighbour, or a non-vanishing divisor ⇒ the model's value is the generated one -/
 theorem harmonicMean_y_3D_eq (M : Mesh α) (hk : M.kind.dim ≠ 1) (φ : CellFld α) (i j k : ℕ)
     (h : φ (i+1, j, k+1) = 0 ∨ φ (i+1, j+1, k+1) = 0 ∨ M.ay.DX (j+1) * φ (i+1, j, k+1) + M.ay.DX j * φ (i+1, j+1, k+1) ≠ 0) :
     harmMean M φ .y (i+1, j, k+1) = some (Gen.AvgGen.harmonicMean_y_3D M φ i j k) := by
-  by_cases hz : φ (i+1, j, k+1) = 0 ∨ φ (i+1, j+1, k+1) = 0
-  · simp [Gen.AvgGen.harmonicMean_y_3D, harmMean, hz, Mesh.axis, Idx.get, Idx.next, Idx.prev, Idx.set]
-  · have hd : M.ay.DX (j+1) * φ (i+1, j, k+1) + M.ay.DX j * φ (i+1, j+1, k+1) ≠ 0 := by
-      rcases h with h | h | h
-      · exact absurd (Or.inl h) hz
-      · exact absurd (Or.inr h) hz
-      · exact h
-    simp [Gen.AvgGen.harmonicMean_y_3D, harmMean, sdiv, hk, hz, hd, Mesh.axis, Idx.get, Idx.next, Idx.prev, Idx.set]
+  simp only [Gen.AvgGen.harmonicMean_y_3D, harmMean, sdiv, hk, Mesh.axis, Idx.get, Idx.next, Idx.prev, Idx.set]
+  split_ifs <;> first
+    | (simp_all <;> done)
+    | (simp_all <;> geq_ring)
 
 /-- the model has a value ⇒ it is the generated one -/
 theorem harmonicMean_z_3D_of_some (M : Mesh α) (hk : M.kind.dim ≠ 1) (φ : CellFld α) (i j k : ℕ) (v : α)
     (hv : harmMean M φ .z (i+1, j+1, k) = some v) : Gen.AvgGen.harmonicMean_z_3D M φ i j k = v := by
-  by_cases hz : φ (i+1, j+1, k) = 0 ∨ φ (i+1, j+1, k+1) = 0
-  · simp [Gen.AvgGen.harmonicMean_z_3D, harmMean, hz, Mesh.axis, Idx.get, Idx.next, Idx.prev, Idx.set] at hv ⊢
-    exact hv
-  · by_cases hd : M.az.DX (k+1) * φ (i+1, j+1, k) + M.az.DX k * φ (i+1, j+1, k+1) = 0
-    · simp [harmMean, sdiv, hk, hz, hd, Mesh.axis, Idx.get, Idx.next, Idx.prev, Idx.set] at hv
-    · simp [Gen.AvgGen.harmonicMean_z_3D, harmMean, sdiv, hk, hz, hd, Mesh.axis, Idx.get, Idx.next, Idx.prev, Idx.set] at hv ⊢
-      exact hv
+  simp only [Gen.AvgGen.harmonicMean_z_3D, harmMean, sdiv, hk, Mesh.axis, Idx.get, Idx.next, Idx.prev, Idx.set] at hv ⊢
+  split_ifs at hv ⊢ <;> first
+    | (simp_all <;> done)
+    | (simp only [*, ↓reduceIte, if_false, if_true, Option.some.injEq] at hv <;> subst hv <;> geq_ring)
 
 /-- a zero neighbour, or a non-vanishing divisor ⇒ the model's value is the generated one -/
 theorem harmonicMean_z_3D_eq (M : Mesh α) (hk : M.kind.dim ≠ 1) (φ : CellFld α) (i j k : ℕ)
     (h : φ (i+1, j+1, k) = 0 ∨ φ (i+1, j+1, k+1) = 0 ∨ M.az.DX (k+1) * φ (i+1, j+1, k) + M.az.DX k * φ (i+1, j+1, k+1) ≠ 0) :
     harmMean M φ .z (i+1, j+1, k) = some (Gen.AvgGen.harmonicMean_z_3D M φ i j k) := by
-  by_cases hz : φ (i+1, j+1, k) = 0 ∨ φ (i+1, j+1, k+1) = 0
-  · simp [Gen.AvgGen.harmonicMean_z_3D, harmMean, hz, Mesh.axis, Idx.get, Idx.next, Idx.prev, Idx.set]
-  · have hd : M.az.DX (k+1) * φ (i+1, j+1, k) + M.az.DX k * φ (i+1, j+1, k+1) ≠ 0 := by
-      rcases h with h | h | h
-      · exact absurd (Or.inl h) hz
-      · exact absurd (Or.inr h) hz
-      · exact h
-    simp [Gen.AvgGen.harmonicMean_z_3D, harmMean, sdiv, hk, hz, hd, Mesh.axis, Idx.get, Idx.next, Idx.prev, Idx.set]
+  simp only [Gen.AvgGen.harmonicMean_z_3D, harmMean, sdiv, hk, Mesh.axis, Idx.get, Idx.next, Idx.prev, Idx.set]
+  split_ifs <;> first
+    | (simp_all <;> done)
+    | (simp_all <;> geq_ring)
 
 /-- the hypothesis of `harmonicMean_x_1D_eq` is necessary: neighbours 1 and −1 of equal width make the divisor of the
     loop formula vanish; the model has no value there (numpy: division by zero), the generated field expression is 0 -/
@@ -427,37 +392,44 @@ example (k : Kind) (hk : k.dim ≠ 1) (φ : CellFld ℚ) (hφ : ∀ c, 0 < φ c)
 /-! ### averaging.py: `geometricMean` = `geoMean expF logF` (np.exp, np.log uninterpreted) -/
 
 theorem geometricMean_x_1D_eq (expF logF : α → α) (M : Mesh α) (φ : CellFld α) (i j k : ℕ) :
-    Gen.AvgGen.geometricMean_x_1D expF logF M φ i j k = geoMean expF logF M φ .x (i, 1, 1) := rfl
+    Gen.AvgGen.geometricMean_x_1D expF logF M φ i j k = geoMean expF logF M φ .x (i, 1, 1) := by
+  first
+  | rfl
+  | (simp only [Gen.AvgGen.geometricMean_x_1D, geoMean, Mesh.axis, Idx.get, Idx.next, Idx.prev, Idx.set]
+     split_ifs <;> first
+       | rfl
+       | (simp_all <;> done)
+       | (simp only [*, if_false, if_true, ↓reduceIte] <;> first | geq_ring | (congr 1 <;> geq_ring)))
 
 theorem geometricMean_x_2D_eq (expF logF : α → α) (M : Mesh α) (φ : CellFld α) (i j k : ℕ)
     (h0 : φ (i, j+1, 1) ≠ 0) (h1 : φ (i+1, j+1, 1) ≠ 0) :
     Gen.AvgGen.geometricMean_x_2D expF logF M φ i j k = geoMean expF logF M φ .x (i, j+1, 1) := by
   simp only [Gen.AvgGen.geometricMean_x_2D, geoMean, Mesh.axis, Idx.get, Idx.next, Idx.prev, Idx.set, h0, h1, or_self, if_false]
-  first | done | (congr 1; ring1)
+  first | done | (congr 1; geq_ring)
 
 theorem geometricMean_y_2D_eq (expF logF : α → α) (M : Mesh α) (φ : CellFld α) (i j k : ℕ)
     (h0 : φ (i+1, j, 1) ≠ 0) (h1 : φ (i+1, j+1, 1) ≠ 0) :
     Gen.AvgGen.geometricMean_y_2D expF logF M φ i j k = geoMean expF logF M φ .y (i+1, j, 1) := by
   simp only [Gen.AvgGen.geometricMean_y_2D, geoMean, Mesh.axis, Idx.get, Idx.next, Idx.prev, Idx.set, h0, h1, or_self, if_false]
-  first | done | (congr 1; ring1)
+  first | done | (congr 1; geq_ring)
 
 theorem geometricMean_x_3D_eq (expF logF : α → α) (M : Mesh α) (φ : CellFld α) (i j k : ℕ)
     (h0 : φ (i, j+1, k+1) ≠ 0) (h1 : φ (i+1, j+1, k+1) ≠ 0) :
     Gen.AvgGen.geometricMean_x_3D expF logF M φ i j k = geoMean expF logF M φ .x (i, j+1, k+1) := by
   simp only [Gen.AvgGen.geometricMean_x_3D, geoMean, Mesh.axis, Idx.get, Idx.next, Idx.prev, Idx.set, h0, h1, or_self, if_false]
-  first | done | (congr 1; ring1)
+  first | done | (congr 1; geq_ring)
 
 theorem geometricMean_y_3D_eq (expF logF : α → α) (M : Mesh α) (φ : CellFld α) (i j k : ℕ)
     (h0 : φ (i+1, j, k+1) ≠ 0) (h1 : φ (i+1, j+1, k+1) ≠ 0) :
     Gen.AvgGen.geometricMean_y_3D expF logF M φ i j k = geoMean expF logF M φ .y (i+1, j, k+1) := by
   simp only [Gen.AvgGen.geometricMean_y_3D, geoMean, Mesh.axis, Idx.get, Idx.next, Idx.prev, Idx.set, h0, h1, or_self, if_false]
-  first | done | (congr 1; ring1)
+  first | done | (congr 1; geq_ring)
 
 theorem geometricMean_z_3D_eq (expF logF : α → α) (M : Mesh α) (φ : CellFld α) (i j k : ℕ)
     (h0 : φ (i+1, j+1, k) ≠ 0) (h1 : φ (i+1, j+1, k+1) ≠ 0) :
     Gen.AvgGen.geometricMean_z_3D expF logF M φ i j k = geoMean expF logF M φ .z (i+1, j+1, k) := by
   simp only [Gen.AvgGen.geometricMean_z_3D, geoMean, Mesh.axis, Idx.get, Idx.next, Idx.prev, Idx.set, h0, h1, or_self, if_false]
-  first | done | (congr 1; ring1)
+  first | done | (congr 1; geq_ring)
 
 /-- the N-D code has no zero branch: with an `exp` that is not 0 "at log 0" the generated formula and the model
     differ on a zero neighbour (the model's branch stands for numpy's log 0 = −∞, exp(−∞) = 0) -/
@@ -485,19 +457,19 @@ theorem upwindMean_x_1D_eq (M : Mesh α) (φ : CellFld α) (u : FaceFld α) (i j
     by_cases hN0 : N = 0
     · subst hN0
       simp only [Nat.zero_add, if_true, if_false, zero_add]
-      split_ifs <;> first | contradiction | omega | ring1
+      split_ifs <;> first | contradiction | omega | geq_ring
     · simp only [Nat.zero_add, if_true, if_false, zero_add, (by omega : ¬ (0 = N + 1)), (by omega : ¬ (0 = N))]
-      split_ifs <;> first | contradiction | omega | ring1
+      split_ifs <;> first | contradiction | omega | geq_ring
   by_cases h1 : i = N + 1
   · subst h1
     simp only [if_true, if_false, h0, Nat.add_sub_cancel, (by omega : ¬ (N + 1 = N))]
-    split_ifs <;> first | contradiction | omega | ring1
+    split_ifs <;> first | contradiction | omega | geq_ring
   by_cases h2 : i = N
   · subst h2
     simp only [if_true, if_false, h0, h1]
-    split_ifs <;> first | contradiction | omega | ring1
+    split_ifs <;> first | contradiction | omega | geq_ring
   simp only [if_false, h0, h1, h2]
-  split_ifs <;> first | contradiction | omega | ring1
+  split_ifs <;> first | contradiction | omega | geq_ring
 
 theorem upwindMean_x_2D_eq (M : Mesh α) (φ : CellFld α) (u : FaceFld α) (i j k : ℕ) (hj : j ≠ M.ay.n) :
     Gen.AvgGen.upwindMean_x_2D M φ u i j k = upMean M φ u .x (i, j+1, 1) := by
@@ -510,19 +482,19 @@ theorem upwindMean_x_2D_eq (M : Mesh α) (φ : CellFld α) (u : FaceFld α) (i j
     by_cases hN0 : N = 0
     · subst hN0
       simp only [Nat.zero_add, if_true, if_false, zero_add]
-      split_ifs <;> first | contradiction | omega | ring1
+      split_ifs <;> first | contradiction | omega | geq_ring
     · simp only [Nat.zero_add, if_true, if_false, zero_add, (by omega : ¬ (0 = N + 1)), (by omega : ¬ (0 = N))]
-      split_ifs <;> first | contradiction | omega | ring1
+      split_ifs <;> first | contradiction | omega | geq_ring
   by_cases h1 : i = N + 1
   · subst h1
     simp only [if_true, if_false, h0, Nat.add_sub_cancel, (by omega : ¬ (N + 1 = N))]
-    split_ifs <;> first | contradiction | omega | ring1
+    split_ifs <;> first | contradiction | omega | geq_ring
   by_cases h2 : i = N
   · subst h2
     simp only [if_true, if_false, h0, h1]
-    split_ifs <;> first | contradiction | omega | ring1
+    split_ifs <;> first | contradiction | omega | geq_ring
   simp only [if_false, h0, h1, h2]
-  split_ifs <;> first | contradiction | omega | ring1
+  split_ifs <;> first | contradiction | omega | geq_ring
 
 theorem upwindMean_y_2D_eq (M : Mesh α) (φ : CellFld α) (u : FaceFld α) (i j k : ℕ) (hi : i ≠ M.ax.n) :
     Gen.AvgGen.upwindMean_y_2D M φ u i j k = upMean M φ u .y (i+1, j, 1) := by
@@ -535,19 +507,19 @@ theorem upwindMean_y_2D_eq (M : Mesh α) (φ : CellFld α) (u : FaceFld α) (i j
     by_cases hN0 : N = 0
     · subst hN0
       simp only [Nat.zero_add, if_true, if_false, zero_add]
-      split_ifs <;> first | contradiction | omega | ring1
+      split_ifs <;> first | contradiction | omega | geq_ring
     · simp only [Nat.zero_add, if_true, if_false, zero_add, (by omega : ¬ (0 = N + 1)), (by omega : ¬ (0 = N))]
-      split_ifs <;> first | contradiction | omega | ring1
+      split_ifs <;> first | contradiction | omega | geq_ring
   by_cases h1 : j = N + 1
   · subst h1
     simp only [if_true, if_false, h0, Nat.add_sub_cancel, (by omega : ¬ (N + 1 = N))]
-    split_ifs <;> first | contradiction | omega | ring1
+    split_ifs <;> first | contradiction | omega | geq_ring
   by_cases h2 : j = N
   · subst h2
     simp only [if_true, if_false, h0, h1]
-    split_ifs <;> first | contradiction | omega | ring1
+    split_ifs <;> first | contradiction | omega | geq_ring
   simp only [if_false, h0, h1, h2]
-  split_ifs <;> first | contradiction | omega | ring1
+  split_ifs <;> first | contradiction | omega | geq_ring
 
 theorem upwindMean_x_3D_eq (M : Mesh α) (φ : CellFld α) (u : FaceFld α) (i j k : ℕ) (hj : j ≠ M.ay.n) (hk : k ≠ M.az.n) :
     Gen.AvgGen.upwindMean_x_3D M φ u i j k = upMean M φ u .x (i, j+1, k+1) := by
@@ -560,19 +532,19 @@ theorem upwindMean_x_3D_eq (M : Mesh α) (φ : CellFld α) (u : FaceFld α) (i j
     by_cases hN0 : N = 0
     · subst hN0
       simp only [Nat.zero_add, if_true, if_false, zero_add]
-      split_ifs <;> first | contradiction | omega | ring1
+      split_ifs <;> first | contradiction | omega | geq_ring
     · simp only [Nat.zero_add, if_true, if_false, zero_add, (by omega : ¬ (0 = N + 1)), (by omega : ¬ (0 = N))]
-      split_ifs <;> first | contradiction | omega | ring1
+      split_ifs <;> first | contradiction | omega | geq_ring
   by_cases h1 : i = N + 1
   · subst h1
     simp only [if_true, if_false, h0, Nat.add_sub_cancel, (by omega : ¬ (N + 1 = N))]
-    split_ifs <;> first | contradiction | omega | ring1
+    split_ifs <;> first | contradiction | omega | geq_ring
   by_cases h2 : i = N
   · subst h2
     simp only [if_true, if_false, h0, h1]
-    split_ifs <;> first | contradiction | omega | ring1
+    split_ifs <;> first | contradiction | omega | geq_ring
   simp only [if_false, h0, h1, h2]
-  split_ifs <;> first | contradiction | omega | ring1
+  split_ifs <;> first | contradiction | omega | geq_ring
 
 theorem upwindMean_y_3D_eq (M : Mesh α) (φ : CellFld α) (u : FaceFld α) (i j k : ℕ) (hi : i ≠ M.ax.n) (hk : k ≠ M.az.n) :
     Gen.AvgGen.upwindMean_y_3D M φ u i j k = upMean M φ u .y (i+1, j, k+1) := by
@@ -585,19 +557,19 @@ theorem upwindMean_y_3D_eq (M : Mesh α) (φ : CellFld α) (u : FaceFld α) (i j
     by_cases hN0 : N = 0
     · subst hN0
       simp only [Nat.zero_add, if_true, if_false, zero_add]
-      split_ifs <;> first | contradiction | omega | ring1
+      split_ifs <;> first | contradiction | omega | geq_ring
     · simp only [Nat.zero_add, if_true, if_false, zero_add, (by omega : ¬ (0 = N + 1)), (by omega : ¬ (0 = N))]
-      split_ifs <;> first | contradiction | omega | ring1
+      split_ifs <;> first | contradiction | omega | geq_ring
   by_cases h1 : j = N + 1
   · subst h1
     simp only [if_true, if_false, h0, Nat.add_sub_cancel, (by omega : ¬ (N + 1 = N))]
-    split_ifs <;> first | contradiction | omega | ring1
+    split_ifs <;> first | contradiction | omega | geq_ring
   by_cases h2 : j = N
   · subst h2
     simp only [if_true, if_false, h0, h1]
-    split_ifs <;> first | contradiction | omega | ring1
+    split_ifs <;> first | contradiction | omega | geq_ring
   simp only [if_false, h0, h1, h2]
-  split_ifs <;> first | contradiction | omega | ring1
+  split_ifs <;> first | contradiction | omega | geq_ring
 
 theorem upwindMean_z_3D_eq (M : Mesh α) (φ : CellFld α) (u : FaceFld α) (i j k : ℕ) (hi : i ≠ M.ax.n) (hj : j ≠ M.ay.n) :
     Gen.AvgGen.upwindMean_z_3D M φ u i j k = upMean M φ u .z (i+1, j+1, k) := by
@@ -610,19 +582,19 @@ theorem upwindMean_z_3D_eq (M : Mesh α) (φ : CellFld α) (u : FaceFld α) (i j
     by_cases hN0 : N = 0
     · subst hN0
       simp only [Nat.zero_add, if_true, if_false, zero_add]
-      split_ifs <;> first | contradiction | omega | ring1
+      split_ifs <;> first | contradiction | omega | geq_ring
     · simp only [Nat.zero_add, if_true, if_false, zero_add, (by omega : ¬ (0 = N + 1)), (by omega : ¬ (0 = N))]
-      split_ifs <;> first | contradiction | omega | ring1
+      split_ifs <;> first | contradiction | omega | geq_ring
   by_cases h1 : k = N + 1
   · subst h1
     simp only [if_true, if_false, h0, Nat.add_sub_cancel, (by omega : ¬ (N + 1 = N))]
-    split_ifs <;> first | contradiction | omega | ring1
+    split_ifs <;> first | contradiction | omega | geq_ring
   by_cases h2 : k = N
   · subst h2
     simp only [if_true, if_false, h0, h1]
-    split_ifs <;> first | contradiction | omega | ring1
+    split_ifs <;> first | contradiction | omega | geq_ring
   simp only [if_false, h0, h1, h2]
-  split_ifs <;> first | contradiction | omega | ring1
+  split_ifs <;> first | contradiction | omega | geq_ring
 
 /-- the cross bound is necessary: at the cross position `j = M.ay.n` (outside the x-face array) the generated formula
     reads the overwritten top ghost layer of `phi_tmp`, the model the cell value -/
@@ -642,78 +614,78 @@ theorem gradientTerm_x_1D_eq (M : Mesh α) (φ : CellFld α) (i j k : ℕ) :
     Gen.AvgGen.gradientTerm_x_1D M φ i j k = gradD M φ .x (i, 1, 1) := by
   have hm : lineM M .x (i, 1, 1) = 1 := by unfold lineM; cases M.kind <;> rfl
   simp only [Gen.AvgGen.gradientTerm_x_1D, gradD, hm, Axis.dxf, Mesh.axis, Idx.get, Idx.next, Idx.prev, Idx.set]
-  ring1
+  geq_ring
 
 theorem gradientTerm_x_2D_eq (M : Mesh α) (φ : CellFld α) (i j k : ℕ) :
     Gen.AvgGen.gradientTerm_x_2D M φ i j k = gradD M φ .x (i, j+1, 1) := by
   have hm : lineM M .x (i, j+1, 1) = 1 := by unfold lineM; cases M.kind <;> rfl
   simp only [Gen.AvgGen.gradientTerm_x_2D, gradD, hm, Axis.dxf, Mesh.axis, Idx.get, Idx.next, Idx.prev, Idx.set]
-  ring1
+  geq_ring
 
 theorem gradientTerm_y_2D_eq (M : Mesh α) (hk : M.kind = .cart2 ∨ M.kind = .cyl2) (φ : CellFld α) (i j k : ℕ) :
     Gen.AvgGen.gradientTerm_y_2D M φ i j k = gradD M φ .y (i+1, j, 1) := by
   rcases hk with hk | hk <;>
   · simp only [Gen.AvgGen.gradientTerm_y_2D, gradD, lineM, hk, Axis.dxf, Mesh.axis, Idx.get, Idx.next, Idx.prev, Idx.set]
-    ring1
+    geq_ring
 
 theorem gradientTerm_x_Polar2D_eq (M : Mesh α) (φ : CellFld α) (i j k : ℕ) :
     Gen.AvgGen.gradientTerm_x_Polar2D M φ i j k = gradD M φ .x (i, j+1, 1) := by
   have hm : lineM M .x (i, j+1, 1) = 1 := by unfold lineM; cases M.kind <;> rfl
   simp only [Gen.AvgGen.gradientTerm_x_Polar2D, gradD, hm, Axis.dxf, Mesh.axis, Idx.get, Idx.next, Idx.prev, Idx.set]
-  ring1
+  geq_ring
 
 theorem gradientTerm_y_Polar2D_eq (M : Mesh α) (hk : M.kind = .pol2) (φ : CellFld α) (i j k : ℕ) :
     Gen.AvgGen.gradientTerm_y_Polar2D M φ i j k = gradD M φ .y (i+1, j, 1) := by
   simp only [Gen.AvgGen.gradientTerm_y_Polar2D, gradD, lineM, hk, Axis.dxf, Mesh.axis, Idx.get, Idx.next, Idx.prev, Idx.set]
-  ring1
+  geq_ring
 
 theorem gradientTerm_x_3D_eq (M : Mesh α) (φ : CellFld α) (i j k : ℕ) :
     Gen.AvgGen.gradientTerm_x_3D M φ i j k = gradD M φ .x (i, j+1, k+1) := by
   have hm : lineM M .x (i, j+1, k+1) = 1 := by unfold lineM; cases M.kind <;> rfl
   simp only [Gen.AvgGen.gradientTerm_x_3D, gradD, hm, Axis.dxf, Mesh.axis, Idx.get, Idx.next, Idx.prev, Idx.set]
-  ring1
+  geq_ring
 
 theorem gradientTerm_y_3D_eq (M : Mesh α) (hk : M.kind = .cart3) (φ : CellFld α) (i j k : ℕ) :
     Gen.AvgGen.gradientTerm_y_3D M φ i j k = gradD M φ .y (i+1, j, k+1) := by
   simp only [Gen.AvgGen.gradientTerm_y_3D, gradD, lineM, hk, Axis.dxf, Mesh.axis, Idx.get, Idx.next, Idx.prev, Idx.set]
-  ring1
+  geq_ring
 
 theorem gradientTerm_z_3D_eq (M : Mesh α) (hk : M.kind = .cart3) (φ : CellFld α) (i j k : ℕ) :
     Gen.AvgGen.gradientTerm_z_3D M φ i j k = gradD M φ .z (i+1, j+1, k) := by
   simp only [Gen.AvgGen.gradientTerm_z_3D, gradD, lineM, hk, Axis.dxf, Mesh.axis, Idx.get, Idx.next, Idx.prev, Idx.set]
-  ring1
+  geq_ring
 
 theorem gradientTerm_x_Cylindrical3D_eq (M : Mesh α) (φ : CellFld α) (i j k : ℕ) :
     Gen.AvgGen.gradientTerm_x_Cylindrical3D M φ i j k = gradD M φ .x (i, j+1, k+1) := by
   have hm : lineM M .x (i, j+1, k+1) = 1 := by unfold lineM; cases M.kind <;> rfl
   simp only [Gen.AvgGen.gradientTerm_x_Cylindrical3D, gradD, hm, Axis.dxf, Mesh.axis, Idx.get, Idx.next, Idx.prev, Idx.set]
-  ring1
+  geq_ring
 
 theorem gradientTerm_y_Cylindrical3D_eq (M : Mesh α) (hk : M.kind = .cyl3) (φ : CellFld α) (i j k : ℕ) :
     Gen.AvgGen.gradientTerm_y_Cylindrical3D M φ i j k = gradD M φ .y (i+1, j, k+1) := by
   simp only [Gen.AvgGen.gradientTerm_y_Cylindrical3D, gradD, lineM, hk, Axis.dxf, Mesh.axis, Idx.get, Idx.next, Idx.prev, Idx.set]
-  ring1
+  geq_ring
 
 theorem gradientTerm_z_Cylindrical3D_eq (M : Mesh α) (hk : M.kind = .cyl3) (φ : CellFld α) (i j k : ℕ) :
     Gen.AvgGen.gradientTerm_z_Cylindrical3D M φ i j k = gradD M φ .z (i+1, j+1, k) := by
   simp only [Gen.AvgGen.gradientTerm_z_Cylindrical3D, gradD, lineM, hk, Axis.dxf, Mesh.axis, Idx.get, Idx.next, Idx.prev, Idx.set]
-  ring1
+  geq_ring
 
 theorem gradientTerm_x_Spherical3D_eq (M : Mesh α) (φ : CellFld α) (i j k : ℕ) :
     Gen.AvgGen.gradientTerm_x_Spherical3D M φ i j k = gradD M φ .x (i, j+1, k+1) := by
   have hm : lineM M .x (i, j+1, k+1) = 1 := by unfold lineM; cases M.kind <;> rfl
   simp only [Gen.AvgGen.gradientTerm_x_Spherical3D, gradD, hm, Axis.dxf, Mesh.axis, Idx.get, Idx.next, Idx.prev, Idx.set]
-  ring1
+  geq_ring
 
 theorem gradientTerm_y_Spherical3D_eq (M : Mesh α) (hk : M.kind = .sph3) (φ : CellFld α) (i j k : ℕ) :
     Gen.AvgGen.gradientTerm_y_Spherical3D M φ i j k = gradD M φ .y (i+1, j, k+1) := by
   simp only [Gen.AvgGen.gradientTerm_y_Spherical3D, gradD, lineM, hk, Axis.dxf, Mesh.axis, Idx.get, Idx.next, Idx.prev, Idx.set]
-  ring1
+  geq_ring
 
 theorem gradientTerm_z_Spherical3D_eq (M : Mesh α) (hk : M.kind = .sph3) (φ : CellFld α) (i j k : ℕ) :
     Gen.AvgGen.gradientTerm_z_Spherical3D M φ i j k = gradD M φ .z (i+1, j+1, k) := by
   simp only [Gen.AvgGen.gradientTerm_z_Spherical3D, gradD, lineM, hk, Axis.dxf, Mesh.axis, Idx.get, Idx.next, Idx.prev, Idx.set]
-  ring1
+  geq_ring
 
 /-- the class hypothesis matters: the Cartesian 2-D formula is not the polar gradient -/
 theorem gradientTerm_y_2D_needs_kind :
@@ -734,133 +706,133 @@ theorem gradientTermFixedBC_x_1D_eq (M : Mesh α) (hn : M.ax.n ≠ 0) (φ : Cell
   have hm : lineM M .x (i, 1, 1) = 1 := by unfold lineM; cases M.kind <;> rfl
   simp only [Gen.AvgGen.gradientTermFixedBC_x_1D, gradD, hm, Axis.dxf, Mesh.axis, Idx.get, Idx.next, Idx.prev, Idx.set, if_neg hn]
   by_cases h1 : i = M.ax.n
-  · simp only [if_pos h1, or_true, if_true, ← h1]; ring1
+  · simp only [if_pos h1, or_true, if_true, ← h1]; geq_ring
   · by_cases h0 : i = 0
-    · subst h0; simp only [if_neg h1, true_or, if_true, zero_add]; ring1
-    · simp only [h1, h0, or_self, if_false]; ring1
+    · subst h0; simp only [if_neg h1, true_or, if_true, zero_add]; geq_ring
+    · simp only [h1, h0, or_self, if_false]; geq_ring
 
 theorem gradientTermFixedBC_x_2D_eq (M : Mesh α) (hn : M.ax.n ≠ 0) (φ : CellFld α) (i j k : ℕ) :
     Gen.AvgGen.gradientTermFixedBC_x_2D M φ i j k = (if i = 0 ∨ i = M.ax.n then 2 else 1) * gradD M φ .x (i, j+1, 1) := by
   have hm : lineM M .x (i, j+1, 1) = 1 := by unfold lineM; cases M.kind <;> rfl
   simp only [Gen.AvgGen.gradientTermFixedBC_x_2D, gradD, hm, Axis.dxf, Mesh.axis, Idx.get, Idx.next, Idx.prev, Idx.set, if_neg hn]
   by_cases h1 : i = M.ax.n
-  · simp only [if_pos h1, or_true, if_true, ← h1]; ring1
+  · simp only [if_pos h1, or_true, if_true, ← h1]; geq_ring
   · by_cases h0 : i = 0
-    · subst h0; simp only [if_neg h1, true_or, if_true, zero_add]; ring1
-    · simp only [h1, h0, or_self, if_false]; ring1
+    · subst h0; simp only [if_neg h1, true_or, if_true, zero_add]; geq_ring
+    · simp only [h1, h0, or_self, if_false]; geq_ring
 
 theorem gradientTermFixedBC_y_2D_eq (M : Mesh α) (hk : M.kind = .cart2 ∨ M.kind = .cyl2) (hn : M.ay.n ≠ 0) (φ : CellFld α) (i j k : ℕ) :
     Gen.AvgGen.gradientTermFixedBC_y_2D M φ i j k = (if j = 0 ∨ j = M.ay.n then 2 else 1) * gradD M φ .y (i+1, j, 1) := by
   have hm : lineM M .y (i+1, j, 1) = 1 := by rcases hk with hk | hk <;> simp only [lineM, hk]
   simp only [Gen.AvgGen.gradientTermFixedBC_y_2D, gradD, hm, Axis.dxf, Mesh.axis, Idx.get, Idx.next, Idx.prev, Idx.set, if_neg hn]
   by_cases h1 : j = M.ay.n
-  · simp only [if_pos h1, or_true, if_true, ← h1]; ring1
+  · simp only [if_pos h1, or_true, if_true, ← h1]; geq_ring
   · by_cases h0 : j = 0
-    · subst h0; simp only [if_neg h1, true_or, if_true, zero_add]; ring1
-    · simp only [h1, h0, or_self, if_false]; ring1
+    · subst h0; simp only [if_neg h1, true_or, if_true, zero_add]; geq_ring
+    · simp only [h1, h0, or_self, if_false]; geq_ring
 
 theorem gradientTermFixedBC_x_Polar2D_eq (M : Mesh α) (hn : M.ax.n ≠ 0) (φ : CellFld α) (i j k : ℕ) :
     Gen.AvgGen.gradientTermFixedBC_x_Polar2D M φ i j k = (if i = 0 ∨ i = M.ax.n then 2 else 1) * gradD M φ .x (i, j+1, 1) := by
   have hm : lineM M .x (i, j+1, 1) = 1 := by unfold lineM; cases M.kind <;> rfl
   simp only [Gen.AvgGen.gradientTermFixedBC_x_Polar2D, gradD, hm, Axis.dxf, Mesh.axis, Idx.get, Idx.next, Idx.prev, Idx.set, if_neg hn]
   by_cases h1 : i = M.ax.n
-  · simp only [if_pos h1, or_true, if_true, ← h1]; ring1
+  · simp only [if_pos h1, or_true, if_true, ← h1]; geq_ring
   · by_cases h0 : i = 0
-    · subst h0; simp only [if_neg h1, true_or, if_true, zero_add]; ring1
-    · simp only [h1, h0, or_self, if_false]; ring1
+    · subst h0; simp only [if_neg h1, true_or, if_true, zero_add]; geq_ring
+    · simp only [h1, h0, or_self, if_false]; geq_ring
 
 theorem gradientTermFixedBC_y_Polar2D_eq (M : Mesh α) (hk : M.kind = .pol2) (hn : M.ay.n ≠ 0) (φ : CellFld α) (i j k : ℕ) :
     Gen.AvgGen.gradientTermFixedBC_y_Polar2D M φ i j k = (if j = 0 ∨ j = M.ay.n then 2 else 1) * gradD M φ .y (i+1, j, 1) := by
   simp only [Gen.AvgGen.gradientTermFixedBC_y_Polar2D, gradD, lineM, hk, Axis.dxf, Mesh.axis, Idx.get, Idx.next, Idx.prev, Idx.set, if_neg hn]
   by_cases h1 : j = M.ay.n
-  · simp only [if_pos h1, or_true, if_true, ← h1]; ring1
+  · simp only [if_pos h1, or_true, if_true, ← h1]; geq_ring
   · by_cases h0 : j = 0
-    · subst h0; simp only [if_neg h1, true_or, if_true, zero_add]; ring1
-    · simp only [h1, h0, or_self, if_false]; ring1
+    · subst h0; simp only [if_neg h1, true_or, if_true, zero_add]; geq_ring
+    · simp only [h1, h0, or_self, if_false]; geq_ring
 
 theorem gradientTermFixedBC_x_3D_eq (M : Mesh α) (hn : M.ax.n ≠ 0) (φ : CellFld α) (i j k : ℕ) :
     Gen.AvgGen.gradientTermFixedBC_x_3D M φ i j k = (if i = 0 ∨ i = M.ax.n then 2 else 1) * gradD M φ .x (i, j+1, k+1) := by
   have hm : lineM M .x (i, j+1, k+1) = 1 := by unfold lineM; cases M.kind <;> rfl
   simp only [Gen.AvgGen.gradientTermFixedBC_x_3D, gradD, hm, Axis.dxf, Mesh.axis, Idx.get, Idx.next, Idx.prev, Idx.set, if_neg hn]
   by_cases h1 : i = M.ax.n
-  · simp only [if_pos h1, or_true, if_true, ← h1]; ring1
+  · simp only [if_pos h1, or_true, if_true, ← h1]; geq_ring
   · by_cases h0 : i = 0
-    · subst h0; simp only [if_neg h1, true_or, if_true, zero_add]; ring1
-    · simp only [h1, h0, or_self, if_false]; ring1
+    · subst h0; simp only [if_neg h1, true_or, if_true, zero_add]; geq_ring
+    · simp only [h1, h0, or_self, if_false]; geq_ring
 
 theorem gradientTermFixedBC_y_3D_eq (M : Mesh α) (hk : M.kind = .cart3) (hn : M.ay.n ≠ 0) (φ : CellFld α) (i j k : ℕ) :
     Gen.AvgGen.gradientTermFixedBC_y_3D M φ i j k = (if j = 0 ∨ j = M.ay.n then 2 else 1) * gradD M φ .y (i+1, j, k+1) := by
   simp only [Gen.AvgGen.gradientTermFixedBC_y_3D, gradD, lineM, hk, Axis.dxf, Mesh.axis, Idx.get, Idx.next, Idx.prev, Idx.set, if_neg hn]
   by_cases h1 : j = M.ay.n
-  · simp only [if_pos h1, or_true, if_true, ← h1]; ring1
+  · simp only [if_pos h1, or_true, if_true, ← h1]; geq_ring
   · by_cases h0 : j = 0
-    · subst h0; simp only [if_neg h1, true_or, if_true, zero_add]; ring1
-    · simp only [h1, h0, or_self, if_false]; ring1
+    · subst h0; simp only [if_neg h1, true_or, if_true, zero_add]; geq_ring
+    · simp only [h1, h0, or_self, if_false]; geq_ring
 
 theorem gradientTermFixedBC_z_3D_eq (M : Mesh α) (hk : M.kind = .cart3) (hn : M.az.n ≠ 0) (φ : CellFld α) (i j k : ℕ) :
     Gen.AvgGen.gradientTermFixedBC_z_3D M φ i j k = (if k = 0 ∨ k = M.az.n then 2 else 1) * gradD M φ .z (i+1, j+1, k) := by
   simp only [Gen.AvgGen.gradientTermFixedBC_z_3D, gradD, lineM, hk, Axis.dxf, Mesh.axis, Idx.get, Idx.next, Idx.prev, Idx.set, if_neg hn]
   by_cases h1 : k = M.az.n
-  · simp only [if_pos h1, or_true, if_true, ← h1]; ring1
+  · simp only [if_pos h1, or_true, if_true, ← h1]; geq_ring
   · by_cases h0 : k = 0
-    · subst h0; simp only [if_neg h1, true_or, if_true, zero_add]; ring1
-    · simp only [h1, h0, or_self, if_false]; ring1
+    · subst h0; simp only [if_neg h1, true_or, if_true, zero_add]; geq_ring
+    · simp only [h1, h0, or_self, if_false]; geq_ring
 
 theorem gradientTermFixedBC_x_Cylindrical3D_eq (M : Mesh α) (hn : M.ax.n ≠ 0) (φ : CellFld α) (i j k : ℕ) :
     Gen.AvgGen.gradientTermFixedBC_x_Cylindrical3D M φ i j k = (if i = 0 ∨ i = M.ax.n then 2 else 1) * gradD M φ .x (i, j+1, k+1) := by
   have hm : lineM M .x (i, j+1, k+1) = 1 := by unfold lineM; cases M.kind <;> rfl
   simp only [Gen.AvgGen.gradientTermFixedBC_x_Cylindrical3D, gradD, hm, Axis.dxf, Mesh.axis, Idx.get, Idx.next, Idx.prev, Idx.set, if_neg hn]
   by_cases h1 : i = M.ax.n
-  · simp only [if_pos h1, or_true, if_true, ← h1]; ring1
+  · simp only [if_pos h1, or_true, if_true, ← h1]; geq_ring
   · by_cases h0 : i = 0
-    · subst h0; simp only [if_neg h1, true_or, if_true, zero_add]; ring1
-    · simp only [h1, h0, or_self, if_false]; ring1
+    · subst h0; simp only [if_neg h1, true_or, if_true, zero_add]; geq_ring
+    · simp only [h1, h0, or_self, if_false]; geq_ring
 
 theorem gradientTermFixedBC_y_Cylindrical3D_eq (M : Mesh α) (hk : M.kind = .cyl3) (hn : M.ay.n ≠ 0) (φ : CellFld α) (i j k : ℕ) :
     Gen.AvgGen.gradientTermFixedBC_y_Cylindrical3D M φ i j k = (if j = 0 ∨ j = M.ay.n then 2 else 1) * gradD M φ .y (i+1, j, k+1) := by
   simp only [Gen.AvgGen.gradientTermFixedBC_y_Cylindrical3D, gradD, lineM, hk, Axis.dxf, Mesh.axis, Idx.get, Idx.next, Idx.prev, Idx.set, if_neg hn]
   by_cases h1 : j = M.ay.n
-  · simp only [if_pos h1, or_true, if_true, ← h1]; ring1
+  · simp only [if_pos h1, or_true, if_true, ← h1]; geq_ring
   · by_cases h0 : j = 0
-    · subst h0; simp only [if_neg h1, true_or, if_true, zero_add]; ring1
-    · simp only [h1, h0, or_self, if_false]; ring1
+    · subst h0; simp only [if_neg h1, true_or, if_true, zero_add]; geq_ring
+    · simp only [h1, h0, or_self, if_false]; geq_ring
 
 theorem gradientTermFixedBC_z_Cylindrical3D_eq (M : Mesh α) (hk : M.kind = .cyl3) (hn : M.az.n ≠ 0) (φ : CellFld α) (i j k : ℕ) :
     Gen.AvgGen.gradientTermFixedBC_z_Cylindrical3D M φ i j k = (if k = 0 ∨ k = M.az.n then 2 else 1) * gradD M φ .z (i+1, j+1, k) := by
   simp only [Gen.AvgGen.gradientTermFixedBC_z_Cylindrical3D, gradD, lineM, hk, Axis.dxf, Mesh.axis, Idx.get, Idx.next, Idx.prev, Idx.set, if_neg hn]
   by_cases h1 : k = M.az.n
-  · simp only [if_pos h1, or_true, if_true, ← h1]; ring1
+  · simp only [if_pos h1, or_true, if_true, ← h1]; geq_ring
   · by_cases h0 : k = 0
-    · subst h0; simp only [if_neg h1, true_or, if_true, zero_add]; ring1
-    · simp only [h1, h0, or_self, if_false]; ring1
+    · subst h0; simp only [if_neg h1, true_or, if_true, zero_add]; geq_ring
+    · simp only [h1, h0, or_self, if_false]; geq_ring
 
 theorem gradientTermFixedBC_x_Spherical3D_eq (M : Mesh α) (hn : M.ax.n ≠ 0) (φ : CellFld α) (i j k : ℕ) :
     Gen.AvgGen.gradientTermFixedBC_x_Spherical3D M φ i j k = (if i = 0 ∨ i = M.ax.n then 2 else 1) * gradD M φ .x (i, j+1, k+1) := by
   have hm : lineM M .x (i, j+1, k+1) = 1 := by unfold lineM; cases M.kind <;> rfl
   simp only [Gen.AvgGen.gradientTermFixedBC_x_Spherical3D, gradD, hm, Axis.dxf, Mesh.axis, Idx.get, Idx.next, Idx.prev, Idx.set, if_neg hn]
   by_cases h1 : i = M.ax.n
-  · simp only [if_pos h1, or_true, if_true, ← h1]; ring1
+  · simp only [if_pos h1, or_true, if_true, ← h1]; geq_ring
   · by_cases h0 : i = 0
-    · subst h0; simp only [if_neg h1, true_or, if_true, zero_add]; ring1
-    · simp only [h1, h0, or_self, if_false]; ring1
+    · subst h0; simp only [if_neg h1, true_or, if_true, zero_add]; geq_ring
+    · simp only [h1, h0, or_self, if_false]; geq_ring
 
 theorem gradientTermFixedBC_y_Spherical3D_eq (M : Mesh α) (hk : M.kind = .sph3) (hn : M.ay.n ≠ 0) (φ : CellFld α) (i j k : ℕ) :
     Gen.AvgGen.gradientTermFixedBC_y_Spherical3D M φ i j k = (if j = 0 ∨ j = M.ay.n then 2 else 1) * gradD M φ .y (i+1, j, k+1) := by
   simp only [Gen.AvgGen.gradientTermFixedBC_y_Spherical3D, gradD, lineM, hk, Axis.dxf, Mesh.axis, Idx.get, Idx.next, Idx.prev, Idx.set, if_neg hn]
   by_cases h1 : j = M.ay.n
-  · simp only [if_pos h1, or_true, if_true, ← h1]; ring1
+  · simp only [if_pos h1, or_true, if_true, ← h1]; geq_ring
   · by_cases h0 : j = 0
-    · subst h0; simp only [if_neg h1, true_or, if_true, zero_add]; ring1
-    · simp only [h1, h0, or_self, if_false]; ring1
+    · subst h0; simp only [if_neg h1, true_or, if_true, zero_add]; geq_ring
+    · simp only [h1, h0, or_self, if_false]; geq_ring
 
 theorem gradientTermFixedBC_z_Spherical3D_eq (M : Mesh α) (hk : M.kind = .sph3) (hn : M.az.n ≠ 0) (φ : CellFld α) (i j k : ℕ) :
     Gen.AvgGen.gradientTermFixedBC_z_Spherical3D M φ i j k = (if k = 0 ∨ k = M.az.n then 2 else 1) * gradD M φ .z (i+1, j+1, k) := by
   simp only [Gen.AvgGen.gradientTermFixedBC_z_Spherical3D, gradD, lineM, hk, Axis.dxf, Mesh.axis, Idx.get, Idx.next, Idx.prev, Idx.set, if_neg hn]
   by_cases h1 : k = M.az.n
-  · simp only [if_pos h1, or_true, if_true, ← h1]; ring1
+  · simp only [if_pos h1, or_true, if_true, ← h1]; geq_ring
   · by_cases h0 : k = 0
-    · subst h0; simp only [if_neg h1, true_or, if_true, zero_add]; ring1
-    · simp only [h1, h0, or_self, if_false]; ring1
+    · subst h0; simp only [if_neg h1, true_or, if_true, zero_add]; geq_ring
+    · simp only [h1, h0, or_self, if_false]; geq_ring
 
 /-- `n ≠ 0` is necessary: on an axis without cells face 0 = face n is doubled twice -/
 theorem gradientTermFixedBC_x_1D_needs_cell :
@@ -880,103 +852,130 @@ example (k : Kind) (φ : CellFld ℚ) (i j l : ℕ) :
     `(linearSourceTerm(a/dt), constantSourceTerm(a*phi/dt))` through the operators of `CellVariable`) -/
 
 theorem constantSourceTerm_1D_eq (M : Mesh α) (γ : CellFld α) (i j k : ℕ) :
-    Gen.AvgGen.constantSourceTerm_1D M γ i j k = constSrcRHS γ (i+1, 1, 1) := rfl
+    Gen.AvgGen.constantSourceTerm_1D M γ i j k = constSrcRHS γ (i+1, 1, 1) := by
+  first | rfl | (simp only [Gen.AvgGen.constantSourceTerm_1D, constSrcRHS, linearSrcRow, transientRow, transientRHS, St7.diag, St7.mk.injEq, Mesh.axis] <;> (try and_intros) <;> geq_ring)
 
 theorem linearSourceTerm_1D_eq (M : Mesh α) (β : CellFld α) (i j k : ℕ) :
-    Gen.AvgGen.linearSourceTerm_1D M β i j k = linearSrcRow β (i+1, 1, 1) := rfl
+    Gen.AvgGen.linearSourceTerm_1D M β i j k = linearSrcRow β (i+1, 1, 1) := by
+  first | rfl | (simp only [Gen.AvgGen.linearSourceTerm_1D, constSrcRHS, linearSrcRow, transientRow, transientRHS, St7.diag, St7.mk.injEq, Mesh.axis] <;> (try and_intros) <;> geq_ring)
 
 theorem transientTerm_row_1D_eq (M : Mesh α) (φ : CellFld α) (dt : α) (al : CellFld α) (i j k : ℕ) :
-    Gen.AvgGen.transientTerm_row_1D M φ dt al i j k = transientRow dt al (i+1, 1, 1) := rfl
+    Gen.AvgGen.transientTerm_row_1D M φ dt al i j k = transientRow dt al (i+1, 1, 1) := by
+  first | rfl | (simp only [Gen.AvgGen.transientTerm_row_1D, constSrcRHS, linearSrcRow, transientRow, transientRHS, St7.diag, St7.mk.injEq, Mesh.axis] <;> (try and_intros) <;> geq_ring)
 
 theorem transientTerm_rhs_1D_eq (M : Mesh α) (φ : CellFld α) (dt : α) (al : CellFld α) (i j k : ℕ) :
-    Gen.AvgGen.transientTerm_rhs_1D M φ dt al i j k = transientRHS φ dt al (i+1, 1, 1) := rfl
+    Gen.AvgGen.transientTerm_rhs_1D M φ dt al i j k = transientRHS φ dt al (i+1, 1, 1) := by
+  first | rfl | (simp only [Gen.AvgGen.transientTerm_rhs_1D, constSrcRHS, linearSrcRow, transientRow, transientRHS, St7.diag, St7.mk.injEq, Mesh.axis] <;> (try and_intros) <;> geq_ring)
 
 /-- `alpha` a number: the constant field -/
 theorem transientTerm_row_1D_scalar_eq (M : Mesh α) (φ : CellFld α) (dt al : α) (i j k : ℕ) :
-    Gen.AvgGen.transientTerm_row_1D_scalar M φ dt al i j k = transientRow dt (fun _ => al) (i+1, 1, 1) := rfl
+    Gen.AvgGen.transientTerm_row_1D_scalar M φ dt al i j k = transientRow dt (fun _ => al) (i+1, 1, 1) := by
+  first | rfl | (simp only [Gen.AvgGen.transientTerm_row_1D_scalar, constSrcRHS, linearSrcRow, transientRow, transientRHS, St7.diag, St7.mk.injEq, Mesh.axis] <;> (try and_intros) <;> geq_ring)
 
 theorem transientTerm_rhs_1D_scalar_eq (M : Mesh α) (φ : CellFld α) (dt al : α) (i j k : ℕ) :
-    Gen.AvgGen.transientTerm_rhs_1D_scalar M φ dt al i j k = transientRHS φ dt (fun _ => al) (i+1, 1, 1) := rfl
+    Gen.AvgGen.transientTerm_rhs_1D_scalar M φ dt al i j k = transientRHS φ dt (fun _ => al) (i+1, 1, 1) := by
+  first | rfl | (simp only [Gen.AvgGen.transientTerm_rhs_1D_scalar, constSrcRHS, linearSrcRow, transientRow, transientRHS, St7.diag, St7.mk.injEq, Mesh.axis] <;> (try and_intros) <;> geq_ring)
 
 /-- `alpha` omitted: the default literal `1.0` -/
 theorem transientTerm_row_1D_default_eq (M : Mesh α) (φ : CellFld α) (dt : α) (i j k : ℕ) :
-    Gen.AvgGen.transientTerm_row_1D_default M φ dt i j k = transientRow dt (fun _ => 1) (i+1, 1, 1) := rfl
+    Gen.AvgGen.transientTerm_row_1D_default M φ dt i j k = transientRow dt (fun _ => 1) (i+1, 1, 1) := by
+  first | rfl | (simp only [Gen.AvgGen.transientTerm_row_1D_default, constSrcRHS, linearSrcRow, transientRow, transientRHS, St7.diag, St7.mk.injEq, Mesh.axis] <;> (try and_intros) <;> geq_ring)
 
 theorem transientTerm_rhs_1D_default_eq (M : Mesh α) (φ : CellFld α) (dt : α) (i j k : ℕ) :
-    Gen.AvgGen.transientTerm_rhs_1D_default M φ dt i j k = transientRHS φ dt (fun _ => 1) (i+1, 1, 1) := rfl
+    Gen.AvgGen.transientTerm_rhs_1D_default M φ dt i j k = transientRHS φ dt (fun _ => 1) (i+1, 1, 1) := by
+  first | rfl | (simp only [Gen.AvgGen.transientTerm_rhs_1D_default, constSrcRHS, linearSrcRow, transientRow, transientRHS, St7.diag, St7.mk.injEq, Mesh.axis] <;> (try and_intros) <;> geq_ring)
 
 /-- the composition inside `transientTerm`: matrix = `linearSourceTerm(alpha/dt)`, RHS = `constantSourceTerm(alpha*phi/dt)`
     (`phi` = the OLD field, sign +, `alpha / dt`) -/
 theorem transientTerm_1D_composition (M : Mesh α) (φ : CellFld α) (dt : α) (al : CellFld α) (i j k : ℕ) :
     Gen.AvgGen.transientTerm_row_1D M φ dt al i j k = Gen.AvgGen.linearSourceTerm_1D M (fun c => al c / dt) i j k ∧
     Gen.AvgGen.transientTerm_rhs_1D M φ dt al i j k = Gen.AvgGen.constantSourceTerm_1D M (fun c => al c * φ c / dt) i j k :=
-  ⟨rfl, rfl⟩
+  ⟨by first | rfl | (simp only [Gen.AvgGen.transientTerm_row_1D, Gen.AvgGen.linearSourceTerm_1D, Gen.AvgGen.transientTerm_rhs_1D, Gen.AvgGen.constantSourceTerm_1D, St7.mk.injEq] <;> (try and_intros) <;> geq_ring),
+   by first | rfl | (simp only [Gen.AvgGen.transientTerm_row_1D, Gen.AvgGen.linearSourceTerm_1D, Gen.AvgGen.transientTerm_rhs_1D, Gen.AvgGen.constantSourceTerm_1D, St7.mk.injEq] <;> (try and_intros) <;> geq_ring)⟩
 
 theorem constantSourceTerm_2D_eq (M : Mesh α) (γ : CellFld α) (i j k : ℕ) :
-    Gen.AvgGen.constantSourceTerm_2D M γ i j k = constSrcRHS γ (i+1, j+1, 1) := rfl
+    Gen.AvgGen.constantSourceTerm_2D M γ i j k = constSrcRHS γ (i+1, j+1, 1) := by
+  first | rfl | (simp only [Gen.AvgGen.constantSourceTerm_2D, constSrcRHS, linearSrcRow, transientRow, transientRHS, St7.diag, St7.mk.injEq, Mesh.axis] <;> (try and_intros) <;> geq_ring)
 
 theorem linearSourceTerm_2D_eq (M : Mesh α) (β : CellFld α) (i j k : ℕ) :
-    Gen.AvgGen.linearSourceTerm_2D M β i j k = linearSrcRow β (i+1, j+1, 1) := rfl
+    Gen.AvgGen.linearSourceTerm_2D M β i j k = linearSrcRow β (i+1, j+1, 1) := by
+  first | rfl | (simp only [Gen.AvgGen.linearSourceTerm_2D, constSrcRHS, linearSrcRow, transientRow, transientRHS, St7.diag, St7.mk.injEq, Mesh.axis] <;> (try and_intros) <;> geq_ring)
 
 theorem transientTerm_row_2D_eq (M : Mesh α) (φ : CellFld α) (dt : α) (al : CellFld α) (i j k : ℕ) :
-    Gen.AvgGen.transientTerm_row_2D M φ dt al i j k = transientRow dt al (i+1, j+1, 1) := rfl
+    Gen.AvgGen.transientTerm_row_2D M φ dt al i j k = transientRow dt al (i+1, j+1, 1) := by
+  first | rfl | (simp only [Gen.AvgGen.transientTerm_row_2D, constSrcRHS, linearSrcRow, transientRow, transientRHS, St7.diag, St7.mk.injEq, Mesh.axis] <;> (try and_intros) <;> geq_ring)
 
 theorem transientTerm_rhs_2D_eq (M : Mesh α) (φ : CellFld α) (dt : α) (al : CellFld α) (i j k : ℕ) :
-    Gen.AvgGen.transientTerm_rhs_2D M φ dt al i j k = transientRHS φ dt al (i+1, j+1, 1) := rfl
+    Gen.AvgGen.transientTerm_rhs_2D M φ dt al i j k = transientRHS φ dt al (i+1, j+1, 1) := by
+  first | rfl | (simp only [Gen.AvgGen.transientTerm_rhs_2D, constSrcRHS, linearSrcRow, transientRow, transientRHS, St7.diag, St7.mk.injEq, Mesh.axis] <;> (try and_intros) <;> geq_ring)
 
 /-- `alpha` a number: the constant field -/
 theorem transientTerm_row_2D_scalar_eq (M : Mesh α) (φ : CellFld α) (dt al : α) (i j k : ℕ) :
-    Gen.AvgGen.transientTerm_row_2D_scalar M φ dt al i j k = transientRow dt (fun _ => al) (i+1, j+1, 1) := rfl
+    Gen.AvgGen.transientTerm_row_2D_scalar M φ dt al i j k = transientRow dt (fun _ => al) (i+1, j+1, 1) := by
+  first | rfl | (simp only [Gen.AvgGen.transientTerm_row_2D_scalar, constSrcRHS, linearSrcRow, transientRow, transientRHS, St7.diag, St7.mk.injEq, Mesh.axis] <;> (try and_intros) <;> geq_ring)
 
 theorem transientTerm_rhs_2D_scalar_eq (M : Mesh α) (φ : CellFld α) (dt al : α) (i j k : ℕ) :
-    Gen.AvgGen.transientTerm_rhs_2D_scalar M φ dt al i j k = transientRHS φ dt (fun _ => al) (i+1, j+1, 1) := rfl
+    Gen.AvgGen.transientTerm_rhs_2D_scalar M φ dt al i j k = transientRHS φ dt (fun _ => al) (i+1, j+1, 1) := by
+  first | rfl | (simp only [Gen.AvgGen.transientTerm_rhs_2D_scalar, constSrcRHS, linearSrcRow, transientRow, transientRHS, St7.diag, St7.mk.injEq, Mesh.axis] <;> (try and_intros) <;> geq_ring)
 
 /-- `alpha` omitted: the default literal `1.0` -/
 theorem transientTerm_row_2D_default_eq (M : Mesh α) (φ : CellFld α) (dt : α) (i j k : ℕ) :
-    Gen.AvgGen.transientTerm_row_2D_default M φ dt i j k = transientRow dt (fun _ => 1) (i+1, j+1, 1) := rfl
+    Gen.AvgGen.transientTerm_row_2D_default M φ dt i j k = transientRow dt (fun _ => 1) (i+1, j+1, 1) := by
+  first | rfl | (simp only [Gen.AvgGen.transientTerm_row_2D_default, constSrcRHS, linearSrcRow, transientRow, transientRHS, St7.diag, St7.mk.injEq, Mesh.axis] <;> (try and_intros) <;> geq_ring)
 
 theorem transientTerm_rhs_2D_default_eq (M : Mesh α) (φ : CellFld α) (dt : α) (i j k : ℕ) :
-    Gen.AvgGen.transientTerm_rhs_2D_default M φ dt i j k = transientRHS φ dt (fun _ => 1) (i+1, j+1, 1) := rfl
+    Gen.AvgGen.transientTerm_rhs_2D_default M φ dt i j k = transientRHS φ dt (fun _ => 1) (i+1, j+1, 1) := by
+  first | rfl | (simp only [Gen.AvgGen.transientTerm_rhs_2D_default, constSrcRHS, linearSrcRow, transientRow, transientRHS, St7.diag, St7.mk.injEq, Mesh.axis] <;> (try and_intros) <;> geq_ring)
 
 /-- the composition inside `transientTerm`: matrix = `linearSourceTerm(alpha/dt)`, RHS = `constantSourceTerm(alpha*phi/dt)`
     (`phi` = the OLD field, sign +, `alpha / dt`) -/
 theorem transientTerm_2D_composition (M : Mesh α) (φ : CellFld α) (dt : α) (al : CellFld α) (i j k : ℕ) :
     Gen.AvgGen.transientTerm_row_2D M φ dt al i j k = Gen.AvgGen.linearSourceTerm_2D M (fun c => al c / dt) i j k ∧
     Gen.AvgGen.transientTerm_rhs_2D M φ dt al i j k = Gen.AvgGen.constantSourceTerm_2D M (fun c => al c * φ c / dt) i j k :=
-  ⟨rfl, rfl⟩
+  ⟨by first | rfl | (simp only [Gen.AvgGen.transientTerm_row_2D, Gen.AvgGen.linearSourceTerm_2D, Gen.AvgGen.transientTerm_rhs_2D, Gen.AvgGen.constantSourceTerm_2D, St7.mk.injEq] <;> (try and_intros) <;> geq_ring),
+   by first | rfl | (simp only [Gen.AvgGen.transientTerm_row_2D, Gen.AvgGen.linearSourceTerm_2D, Gen.AvgGen.transientTerm_rhs_2D, Gen.AvgGen.constantSourceTerm_2D, St7.mk.injEq] <;> (try and_intros) <;> geq_ring)⟩
 
 theorem constantSourceTerm_3D_eq (M : Mesh α) (γ : CellFld α) (i j k : ℕ) :
-    Gen.AvgGen.constantSourceTerm_3D M γ i j k = constSrcRHS γ (i+1, j+1, k+1) := rfl
+    Gen.AvgGen.constantSourceTerm_3D M γ i j k = constSrcRHS γ (i+1, j+1, k+1) := by
+  first | rfl | (simp only [Gen.AvgGen.constantSourceTerm_3D, constSrcRHS, linearSrcRow, transientRow, transientRHS, St7.diag, St7.mk.injEq, Mesh.axis] <;> (try and_intros) <;> geq_ring)
 
 theorem linearSourceTerm_3D_eq (M : Mesh α) (β : CellFld α) (i j k : ℕ) :
-    Gen.AvgGen.linearSourceTerm_3D M β i j k = linearSrcRow β (i+1, j+1, k+1) := rfl
+    Gen.AvgGen.linearSourceTerm_3D M β i j k = linearSrcRow β (i+1, j+1, k+1) := by
+  first | rfl | (simp only [Gen.AvgGen.linearSourceTerm_3D, constSrcRHS, linearSrcRow, transientRow, transientRHS, St7.diag, St7.mk.injEq, Mesh.axis] <;> (try and_intros) <;> geq_ring)
 
 theorem transientTerm_row_3D_eq (M : Mesh α) (φ : CellFld α) (dt : α) (al : CellFld α) (i j k : ℕ) :
-    Gen.AvgGen.transientTerm_row_3D M φ dt al i j k = transientRow dt al (i+1, j+1, k+1) := rfl
+    Gen.AvgGen.transientTerm_row_3D M φ dt al i j k = transientRow dt al (i+1, j+1, k+1) := by
+  first | rfl | (simp only [Gen.AvgGen.transientTerm_row_3D, constSrcRHS, linearSrcRow, transientRow, transientRHS, St7.diag, St7.mk.injEq, Mesh.axis] <;> (try and_intros) <;> geq_ring)
 
 theorem transientTerm_rhs_3D_eq (M : Mesh α) (φ : CellFld α) (dt : α) (al : CellFld α) (i j k : ℕ) :
-    Gen.AvgGen.transientTerm_rhs_3D M φ dt al i j k = transientRHS φ dt al (i+1, j+1, k+1) := rfl
+    Gen.AvgGen.transientTerm_rhs_3D M φ dt al i j k = transientRHS φ dt al (i+1, j+1, k+1) := by
+  first | rfl | (simp only [Gen.AvgGen.transientTerm_rhs_3D, constSrcRHS, linearSrcRow, transientRow, transientRHS, St7.diag, St7.mk.injEq, Mesh.axis] <;> (try and_intros) <;> geq_ring)
 
 /-- `alpha` a number: the constant field -/
 theorem transientTerm_row_3D_scalar_eq (M : Mesh α) (φ : CellFld α) (dt al : α) (i j k : ℕ) :
-    Gen.AvgGen.transientTerm_row_3D_scalar M φ dt al i j k = transientRow dt (fun _ => al) (i+1, j+1, k+1) := rfl
+    Gen.AvgGen.transientTerm_row_3D_scalar M φ dt al i j k = transientRow dt (fun _ => al) (i+1, j+1, k+1) := by
+  first | rfl | (simp only [Gen.AvgGen.transientTerm_row_3D_scalar, constSrcRHS, linearSrcRow, transientRow, transientRHS, St7.diag, St7.mk.injEq, Mesh.axis] <;> (try and_intros) <;> geq_ring)
 
 theorem transientTerm_rhs_3D_scalar_eq (M : Mesh α) (φ : CellFld α) (dt al : α) (i j k : ℕ) :
-    Gen.AvgGen.transientTerm_rhs_3D_scalar M φ dt al i j k = transientRHS φ dt (fun _ => al) (i+1, j+1, k+1) := rfl
+    Gen.AvgGen.transientTerm_rhs_3D_scalar M φ dt al i j k = transientRHS φ dt (fun _ => al) (i+1, j+1, k+1) := by
+  first | rfl | (simp only [Gen.AvgGen.transientTerm_rhs_3D_scalar, constSrcRHS, linearSrcRow, transientRow, transientRHS, St7.diag, St7.mk.injEq, Mesh.axis] <;> (try and_intros) <;> geq_ring)
 
 /-- `alpha` omitted: the default literal `1.0` -/
 theorem transientTerm_row_3D_default_eq (M : Mesh α) (φ : CellFld α) (dt : α) (i j k : ℕ) :
-    Gen.AvgGen.transientTerm_row_3D_default M φ dt i j k = transientRow dt (fun _ => 1) (i+1, j+1, k+1) := rfl
+    Gen.AvgGen.transientTerm_row_3D_default M φ dt i j k = transientRow dt (fun _ => 1) (i+1, j+1, k+1) := by
+  first | rfl | (simp only [Gen.AvgGen.transientTerm_row_3D_default, constSrcRHS, linearSrcRow, transientRow, transientRHS, St7.diag, St7.mk.injEq, Mesh.axis] <;> (try and_intros) <;> geq_ring)
 
 theorem transientTerm_rhs_3D_default_eq (M : Mesh α) (φ : CellFld α) (dt : α) (i j k : ℕ) :
-    Gen.AvgGen.transientTerm_rhs_3D_default M φ dt i j k = transientRHS φ dt (fun _ => 1) (i+1, j+1, k+1) := rfl
+    Gen.AvgGen.transientTerm_rhs_3D_default M φ dt i j k = transientRHS φ dt (fun _ => 1) (i+1, j+1, k+1) := by
+  first | rfl | (simp only [Gen.AvgGen.transientTerm_rhs_3D_default, constSrcRHS, linearSrcRow, transientRow, transientRHS, St7.diag, St7.mk.injEq, Mesh.axis] <;> (try and_intros) <;> geq_ring)
 
 /-- the composition inside `transientTerm`: matrix = `linearSourceTerm(alpha/dt)`, RHS = `constantSourceTerm(alpha*phi/dt)`
     (`phi` = the OLD field, sign +, `alpha / dt`) -/
 theorem transientTerm_3D_composition (M : Mesh α) (φ : CellFld α) (dt : α) (al : CellFld α) (i j k : ℕ) :
     Gen.AvgGen.transientTerm_row_3D M φ dt al i j k = Gen.AvgGen.linearSourceTerm_3D M (fun c => al c / dt) i j k ∧
     Gen.AvgGen.transientTerm_rhs_3D M φ dt al i j k = Gen.AvgGen.constantSourceTerm_3D M (fun c => al c * φ c / dt) i j k :=
-  ⟨rfl, rfl⟩
+  ⟨by first | rfl | (simp only [Gen.AvgGen.transientTerm_row_3D, Gen.AvgGen.linearSourceTerm_3D, Gen.AvgGen.transientTerm_rhs_3D, Gen.AvgGen.constantSourceTerm_3D, St7.mk.injEq] <;> (try and_intros) <;> geq_ring),
+   by first | rfl | (simp only [Gen.AvgGen.transientTerm_row_3D, Gen.AvgGen.linearSourceTerm_3D, Gen.AvgGen.transientTerm_rhs_3D, Gen.AvgGen.constantSourceTerm_3D, St7.mk.injEq] <;> (try and_intros) <;> geq_ring)⟩
 
 /-- the generated linear-source row acts as multiplication by β on the cell itself -/
 example (M : Mesh ℚ) (β ψ : CellFld ℚ) (i j k : ℕ) :
